@@ -23,6 +23,7 @@ type RunSpec struct {
 	Config   *RunConfig          `json:"config,omitempty"` // replay: use this configuration verbatim
 	Debug    bool                `json:"-"`
 	KeepTrace bool               `json:"-"`
+	Variant   int                `json:"variant,omitempty"` // S2/S3 sweeps: which fault variant produced the trace
 }
 
 // RunResult is what one run reports.
@@ -83,26 +84,9 @@ func RunOne(t *testing.T, spec RunSpec) (res RunResult) {
 			// keep the cfg stream aligned with the recording
 			_ = DrawConfig(ch, spec.Profile, spec.Thorough)
 		}
-		sim := simrt.New(ch)
-		sim.YieldPct["disk"] = cfg.YieldDisk
-		sim.YieldPct["disk-post"] = cfg.YieldDisk / 2
-		sim.YieldPct["net"] = cfg.YieldNet
-		sim.YieldPct["fsm"] = cfg.YieldFSM
 		n := cfg.Voters + cfg.NonVoters + cfg.Spares
-		w := &World{sim: sim, ch: ch, cfg: cfg, t0: time.Now(), stats: newStats(), absStates: map[uint64]struct{}{}, maxViol: 8}
-		if spec.Debug {
-			w.debug = os.Stdout
-		}
-		for i := 0; i < n; i++ {
-			nd := &Node{idx: i, id: raft.ServerID(fmt.Sprintf("s%d", i)), addr: raft.ServerAddress(fmt.Sprintf("a%d", i))}
-			nd.disk = newDisk(nd)
-			nd.disk.slowPct = cfg.DiskSlowPct
-			w.nodes = append(w.nodes, nd)
-		}
-		w.or = newOracle(w, n)
-		w.net = newNet(w, n)
-		w.flt = newFaults(w, n)
-		w.cl = newClients(w)
+		w := newWorld(ch, cfg, n, spec.Debug)
+		sim := w.sim
 		simrt.Active = sim
 		defer func() { simrt.Active = nil }()
 
@@ -138,6 +122,30 @@ func RunOne(t *testing.T, spec RunSpec) (res RunResult) {
 		sim.Teardown(synctest.Wait)
 	})
 	return res
+}
+
+// newWorld builds the simulator state for n servers (nothing is booted yet).
+func newWorld(ch *simrt.Chooser, cfg *RunConfig, n int, debug bool) *World {
+	sim := simrt.New(ch)
+	sim.YieldPct["disk"] = cfg.YieldDisk
+	sim.YieldPct["disk-post"] = cfg.YieldDisk / 2
+	sim.YieldPct["net"] = cfg.YieldNet
+	sim.YieldPct["fsm"] = cfg.YieldFSM
+	w := &World{sim: sim, ch: ch, cfg: cfg, t0: time.Now(), stats: newStats(), absStates: map[uint64]struct{}{}, maxViol: 8}
+	if debug {
+		w.debug = os.Stdout
+	}
+	for i := 0; i < n; i++ {
+		nd := &Node{idx: i, id: raft.ServerID(fmt.Sprintf("s%d", i)), addr: raft.ServerAddress(fmt.Sprintf("a%d", i))}
+		nd.disk = newDisk(nd)
+		nd.disk.slowPct = cfg.DiskSlowPct
+		w.nodes = append(w.nodes, nd)
+	}
+	w.or = newOracle(w, n)
+	w.net = newNet(w, n)
+	w.flt = newFaults(w, n)
+	w.cl = newClients(w)
+	return w
 }
 
 // scenarioStart boots the initial cluster and the clients (S1).
